@@ -110,14 +110,88 @@ def kani_prepare(repo, dst):
 
 
 def kani_run(dst, harness, extra=(), timeout=1800):
+    res = kani_run_many(dst, [harness], extra=extra, timeout=timeout)
+    r = res["harnesses"].get(harness, {})
+    return res["rc"], r.get("output", res["tail"]), res["wall"], res["cmd"]
+
+
+def kani_run_many(dst, harnesses, extra=(), timeout=2400, jobs=8):
+    """one `cargo kani` invocation for several harnesses; returns per-harness verdicts.
+    The whole process group is killed on timeout so that no cbmc is left behind."""
+    import signal
     env = dict(os.environ)
     env["CARGO_NET_OFFLINE"] = "true"
     cmd = ["cargo", "kani", "--target-dir", os.path.join(CACHE, "kani-target"), "-Z", "stubbing", "-Z", "function-contracts",
-           "--harness", harness] + list(extra)
+           "-j", str(jobs), "--output-format", "terse"]
+    for h in harnesses:
+        cmd += ["--harness", h]
+    cmd += list(extra)
     t0 = time.time()
+    p = subprocess.Popen(cmd, cwd=os.path.join(dst, "chitchat"), env=env, stdout=subprocess.PIPE, stderr=subprocess.STDOUT,
+                         text=True, start_new_session=True)
     try:
-        p = subprocess.run(cmd, cwd=os.path.join(dst, "chitchat"), env=env, capture_output=True, text=True, timeout=timeout)
-        rc, out = p.returncode, p.stdout + "\n" + p.stderr
+        out, _ = p.communicate(timeout=timeout)
+        rc = p.returncode
     except subprocess.TimeoutExpired:
-        rc, out = 124, "timeout"
-    return rc, out, time.time() - t0, " ".join(cmd)
+        try:
+            os.killpg(p.pid, signal.SIGKILL)
+        except Exception:
+            pass
+        out, _ = p.communicate()
+        rc = 124
+    wall = time.time() - t0
+    res = {}
+    cur = {}     # thread -> harness name
+    # single-threaded format has no "Thread N:" prefix: normalise it
+    norm = out
+    if "Thread " not in out:
+        norm = re.sub(r"(?m)^Checking harness ", "Thread 0: Checking harness ", out)
+        norm = re.sub(r"(?m)^VERIFICATION RESULT:", "Thread 0: \nVERIFICATION RESULT:", norm)
+    pos = 0
+    pat = re.compile(r"Thread (\d+): Checking harness (\S+?)\.\.\.|Thread (\d+): ?\n(?:SUMMARY:|RESULTS:|VERIFICATION RESULT:)(.*?)Verification Time: ([\d.]+)s", re.S)
+    for m in pat.finditer(norm):
+        if m.group(2):
+            cur[m.group(1)] = m.group(2).split("::")[-1]
+            res[cur[m.group(1)]] = {"ok": False, "failed": False, "checks": 0, "time_s": None, "cover_unsat": False,
+                                    "failed_checks": [], "output": ""}
+        else:
+            name = cur.get(m.group(3))
+            if not name:
+                continue
+            part = m.group(4)
+            mm = re.search(r"\*\* (\d+) of (\d+) failed", part)
+            cov = re.search(r"\*\* (\d+) of (\d+) cover properties satisfied", part)
+            res[name].update({"ok": "VERIFICATION:- SUCCESSFUL" in part, "failed": "VERIFICATION:- FAILED" in part,
+                              "checks": int(mm.group(2)) if mm else 0, "time_s": float(m.group(5)),
+                              "cover_unsat": bool(cov and int(cov.group(1)) < int(cov.group(2))),
+                              "failed_checks": re.findall(r"Failed Checks: (.*)", part)[:10], "output": part[-5000:]})
+    return {"rc": rc, "wall": wall, "cmd": " ".join(cmd), "harnesses": res, "tail": out[-3000:],
+            "compile_error": ("error: could not compile" in out or "Failed to execute cargo" in out)}
+
+
+def kani_file_run(rs_path, harness, args=(), timeout=1500):
+    """single-file `kani f.rs --harness h` on mechanically extracted text (C17)"""
+    import signal
+    cmd = ["kani", os.path.basename(rs_path), "--harness", harness] + list(args)
+    t0 = time.time()
+    p = subprocess.Popen(cmd, cwd=os.path.dirname(rs_path), stdout=subprocess.PIPE, stderr=subprocess.STDOUT, text=True, start_new_session=True)
+    try:
+        out, _ = p.communicate(timeout=timeout)
+        rc = p.returncode
+    except subprocess.TimeoutExpired:
+        try:
+            os.killpg(p.pid, signal.SIGKILL)
+        except Exception:
+            pass
+        out, _ = p.communicate()
+        rc = 124
+    mm = re.search(r"\*\* (\d+) of (\d+) failed", out)
+    cov = re.search(r"\*\* (\d+) of (\d+) cover properties satisfied", out)
+    mt = re.search(r"Verification Time: ([\d.]+)s", out)
+    return {"rc": rc, "wall": time.time() - t0, "cmd": " ".join(cmd), "ok": "VERIFICATION:- SUCCESSFUL" in out,
+            "failed": "VERIFICATION:- FAILED" in out, "checks": int(mm.group(2)) if mm else 0,
+            "time_s": float(mt.group(1)) if mt else None,
+            "cover_unsat": bool(cov and int(cov.group(1)) < int(cov.group(2))),
+            "failed_checks": re.findall(r"Failed Checks: (.*(?:\n File: .*)?)", out)[:10],
+            "compile_error": ("error: aborting" in out or "error[E" in out) and "VERIFICATION" not in out,
+            "output": out[-6000:]}
